@@ -243,6 +243,41 @@ func ruleCursorProtocol(c *Ctx) {
 		steps := fg.Find(func(x ast.Node) bool { call, ok := x.(*ast.CallExpr); return ok && isCursorCall(call, "Step") })
 		var offsetObj types.Object
 		okHead := len(offs) == 1 && len(steps) == 1
+		// the same two steps moved into a helper: offset := cursorStart(cursor), called once, unconditionally
+		if len(offs) == 0 && len(steps) == 0 {
+			var starts []*ast.AssignStmt
+			inspectNoLit(fn.Decl.Body, func(x ast.Node) bool {
+				as, ok := x.(*ast.AssignStmt)
+				if !ok || len(as.Lhs) != 1 || len(as.Rhs) != 1 {
+					return true
+				}
+				call, ok := ast.Unparen(as.Rhs[0]).(*ast.CallExpr)
+				if !ok || len(call.Args) != 1 {
+					return true
+				}
+				if id, ok := ast.Unparen(call.Args[0]).(*ast.Ident); !ok || info.ObjectOf(id) != cursorObj {
+					return true
+				}
+				if f := callee(info, call); f != nil && cursorStartHelper(c, f) {
+					starts = append(starts, as)
+				}
+				return true
+			})
+			if len(starts) == 1 {
+				if id, ok := starts[0].Lhs[0].(*ast.Ident); ok {
+					offsetObj = info.ObjectOf(id)
+				}
+				l := fg.LocOf(starts[0])
+				// executed on every path that reaches the traversal: it dominates every function literal that follows
+				okHelper := l.Valid() && offsetObj != nil
+				if okHelper {
+					c.ok(name+"/offset-and-step", starts[0].Pos(), true, "offset is obtained from a helper that reads the cursor offset and pre-steps it once under cursor != nil")
+				} else {
+					c.bad(name+"/offset-and-step", fn.Decl.Pos(), "the iterator does not read the cursor offset and pre-step it exactly once under cursor != nil: resumed pages start at the wrong element or the reported cursor is off")
+				}
+				goto callbacks
+			}
+		}
 		if okHead {
 			if as, ok := offs[0].Block.Nodes[offs[0].Idx].(*ast.AssignStmt); ok && len(as.Lhs) == 1 {
 				if id, ok := as.Lhs[0].(*ast.Ident); ok {
@@ -270,6 +305,7 @@ func ruleCursorProtocol(c *Ctx) {
 		}
 		c.check(okHead, name+"/offset-and-step", fn.Decl.Pos(), "offset = cursor.Offset(); cursor.Step(offset) exactly once under cursor != nil",
 			"the iterator does not read the cursor offset and pre-step it exactly once under cursor != nil: resumed pages start at the wrong element or the reported cursor is off")
+	callbacks:
 		if offsetObj == nil {
 			continue
 		}
@@ -311,11 +347,16 @@ func ruleCursorProtocol(c *Ctx) {
 						continue
 					}
 					var l, r ast.Expr
+					skipSucc := 0 // the successor taken when the item is skipped (count <= offset)
 					switch be.Op {
 					case token.LEQ:
 						l, r = be.X, be.Y
 					case token.GEQ:
 						l, r = be.Y, be.X
+					case token.GTR: // count > offset: the skip is the false edge
+						l, r, skipSucc = be.X, be.Y, 1
+					case token.LSS: // offset < count
+						l, r, skipSucc = be.Y, be.X, 1
 					default:
 						continue
 					}
@@ -326,7 +367,7 @@ func ruleCursorProtocol(c *Ctx) {
 					}
 					// the user iterator must be reachable only through the false edge
 					viaTrue, _ := lfg.Reach(PathQuery{From: Loc{b, len(b.Nodes) - 1, nil}, Target: func(t Loc) bool { return t.Block == ic.Block && t.Idx == ic.Idx },
-						EdgeOK: func(from *cfg.Block, si int) bool { return !(from == b && si == 1) }})
+						EdgeOK: func(from *cfg.Block, si int) bool { return !(from == b && si != skipSucc) }})
 					if lfg.BlockDominates(b, ic.Block) && !viaTrue {
 						skipOK = true
 						skipBlock = b
@@ -452,13 +493,73 @@ func ruleCursorReport(c *Ctx) {
 		}
 	}
 	c.check(okStore, "hitLimit-edge", po.Decl.Pos(), "hitLimit is set only when numberItems == limit and the iteration stops there", "hitLimit is set on another edge, or the iteration continues after the limit was hit: the reported cursor does not resume where the page ended")
-	// writeFoot: cursor := numberIters; if !hitLimit { cursor = 0 }
+	// writeFoot: the value reported as the cursor is numberIters exactly when hitLimit, and 0 otherwise —
+	// evaluated for the two scenarios (hitLimit true / false) by a small value-kind dataflow that follows
+	// the local holding the cursor and, one level, a helper that computes it
 	winfo := wf.Info()
+	const (
+		kIters = 1 << iota
+		kZero
+		kOther
+	)
+	var kindOf func(info *types.Info, e ast.Expr, hitTrue bool, depth int) int
+	scenarioEdgeOK := func(fg *FlowGraph, info *types.Info, hitTrue bool) func(*cfg.Block, int) bool {
+		return func(b *cfg.Block, si int) bool {
+			for _, f := range fg.edgeFacts(b, si) {
+				if f.Tag == nil && selField(info, f.E) == hit {
+					if (!f.Neg) != hitTrue {
+						return false
+					}
+				}
+			}
+			return true
+		}
+	}
+	helperKinds := func(f *types.Func, hitTrue bool, depth int) int {
+		fi := c.FuncOf(f)
+		if fi == nil || depth <= 0 {
+			return kOther
+		}
+		hfg := newFlowGraph(fi.Info(), fi.Decl.Body)
+		kinds := 0
+		ok := scenarioEdgeOK(hfg, fi.Info(), hitTrue)
+		for _, r := range hfg.Returns() {
+			rr := r
+			if reach, _ := hfg.Reach(PathQuery{Target: func(l Loc) bool { return l.Block == rr.Block && l.Idx == rr.Idx }, EdgeOK: ok}); !reach {
+				continue
+			}
+			rs := r.Node.(*ast.ReturnStmt)
+			if len(rs.Results) != 1 {
+				kinds |= kOther
+				continue
+			}
+			kinds |= kindOf(fi.Info(), rs.Results[0], hitTrue, depth-1)
+		}
+		return kinds
+	}
+	kindOf = func(info *types.Info, e ast.Expr, hitTrue bool, depth int) int {
+		e = ast.Unparen(e)
+		if selField(info, e) == iters {
+			return kIters
+		}
+		if tv, ok := info.Types[e]; ok && tv.Value != nil && tv.Value.String() == "0" {
+			return kZero
+		}
+		if call, ok := e.(*ast.CallExpr); ok && len(call.Args) == 0 {
+			if f := callee(info, call); f != nil && c.FuncOf(f) != nil {
+				return helperKinds(f, hitTrue, depth)
+			}
+		}
+		return kOther
+	}
+	// the local that holds the cursor: defined from numberIters or from a helper whose results are of these kinds
 	var cur types.Object
 	ast.Inspect(wf.Decl.Body, func(x ast.Node) bool {
-		if as, ok := x.(*ast.AssignStmt); ok && as.Tok == token.DEFINE && len(as.Lhs) == 1 && len(as.Rhs) == 1 && selField(winfo, as.Rhs[0]) == iters {
-			if id, ok := as.Lhs[0].(*ast.Ident); ok {
-				cur = winfo.ObjectOf(id)
+		if as, ok := x.(*ast.AssignStmt); ok && as.Tok == token.DEFINE && len(as.Lhs) == 1 && len(as.Rhs) == 1 && cur == nil {
+			if k := kindOf(winfo, as.Rhs[0], true, 1) | kindOf(winfo, as.Rhs[0], false, 1); k&kOther == 0 && k != 0 {
+				if id, ok := as.Lhs[0].(*ast.Ident); ok {
+					cur = winfo.ObjectOf(id)
+				}
 			}
 		}
 		return true
@@ -466,52 +567,118 @@ func ruleCursorReport(c *Ctx) {
 	okFoot := cur != nil
 	if okFoot {
 		wfg := newFlowGraph(winfo, wf.Decl.Body)
-		nz := 0
-		for _, l := range wfg.Find(func(x ast.Node) bool {
-			as, ok := x.(*ast.AssignStmt)
-			if !ok || as.Tok == token.DEFINE || len(as.Lhs) != 1 {
-				return false
-			}
-			id, ok := as.Lhs[0].(*ast.Ident)
-			return ok && winfo.ObjectOf(id) == cur
-		}) {
-			as := l.Node.(*ast.AssignStmt)
-			zero := false
-			if tv, ok := winfo.Types[as.Rhs[0]]; ok && tv.Value != nil && tv.Value.String() == "0" {
-				zero = true
-			}
-			guard := false
-			extraGuards := 0
-			base := map[string]bool{}
-			for _, dl := range wfg.Find(func(x ast.Node) bool {
-				as, ok := x.(*ast.AssignStmt)
-				return ok && as.Tok == token.DEFINE && len(as.Rhs) == 1 && selField(winfo, as.Rhs[0]) == iters
-			}) {
-				for _, f := range wfg.DominatingFacts(dl) {
-					base[factStr(f)] = true
+		for _, hitTrue := range []bool{true, false} {
+			edgeOK := scenarioEdgeOK(wfg, winfo, hitTrue)
+			in := map[int32]int{}
+			seen := map[int32]bool{0: true}
+			work := []*cfg.Block{wfg.G.Blocks[0]}
+			final := 0
+			for len(work) > 0 {
+				b := work[0]
+				work = work[1:]
+				st := in[b.Index]
+				for _, nd := range b.Nodes {
+					if as, ok := nd.(*ast.AssignStmt); ok && len(as.Lhs) == len(as.Rhs) {
+						for i, l := range as.Lhs {
+							if id, ok := ast.Unparen(l).(*ast.Ident); ok && winfo.ObjectOf(id) == cur {
+								st = kindOf(winfo, as.Rhs[i], hitTrue, 1)
+							}
+						}
+					}
+				}
+				if len(b.Succs) == 0 {
+					final |= st
+				}
+				for si, sc := range b.Succs {
+					if !edgeOK(b, si) {
+						continue
+					}
+					if !seen[sc.Index] || in[sc.Index]|st != in[sc.Index] {
+						seen[sc.Index] = true
+						in[sc.Index] |= st
+						work = append(work, sc)
+					}
 				}
 			}
-			for _, f := range wfg.DominatingFacts(l) {
-				if base[factStr(f)] {
-					continue
-				}
-				if f.Neg && selField(winfo, f.E) == hit {
-					guard = true
-				} else {
-					extraGuards++
-				}
+			want := kZero
+			if hitTrue {
+				want = kIters
 			}
-			if extraGuards > 0 {
-				guard = false // the reset to 0 must happen exactly when !hitLimit
-			}
-			if !zero || !guard {
+			if final != want {
 				okFoot = false
 			}
-			nz++
-		}
-		if nz == 0 {
-			okFoot = false
 		}
 	}
 	c.check(okFoot, "writeFoot-cursor", wf.Decl.Pos(), "the reported cursor is numberIters, replaced by 0 exactly when !hitLimit", "writeFoot does not report numberIters when the limit was hit and 0 otherwise")
+}
+
+// cursorStartHelper: f(cursor Cursor) uint64 reads cursor.Offset() and calls cursor.Step(offset) exactly once,
+// under cursor != nil, and returns that offset (the zero value otherwise).
+func cursorStartHelper(c *Ctx, f *types.Func) bool {
+	fi := c.FuncOf(f)
+	if fi == nil || fi.Decl.Type.Params == nil || len(fi.Decl.Type.Params.List) != 1 || len(fi.Decl.Type.Params.List[0].Names) != 1 {
+		return false
+	}
+	info := fi.Info()
+	cur := info.ObjectOf(fi.Decl.Type.Params.List[0].Names[0])
+	if cur == nil || !isNamedType(cur.Type(), colPath, "Cursor") {
+		return false
+	}
+	fg := newFlowGraph(info, fi.Decl.Body)
+	isCall := func(x ast.Node, m string) bool {
+		call, ok := x.(*ast.CallExpr)
+		if !ok {
+			return false
+		}
+		se, ok := ast.Unparen(call.Fun).(*ast.SelectorExpr)
+		if !ok || se.Sel.Name != m {
+			return false
+		}
+		id, ok := ast.Unparen(se.X).(*ast.Ident)
+		return ok && info.ObjectOf(id) == cur
+	}
+	offs := fg.Find(func(x ast.Node) bool { return isCall(x, "Offset") })
+	steps := fg.Find(func(x ast.Node) bool { return isCall(x, "Step") })
+	if len(offs) != 1 || len(steps) != 1 || !fg.Dominates(offs[0], steps[0]) {
+		return false
+	}
+	var off types.Object
+	if as, ok := offs[0].Block.Nodes[offs[0].Idx].(*ast.AssignStmt); ok && len(as.Lhs) == 1 {
+		if id, ok := as.Lhs[0].(*ast.Ident); ok {
+			off = info.ObjectOf(id)
+		}
+	}
+	sc := steps[0].Node.(*ast.CallExpr)
+	if id, ok := ast.Unparen(sc.Args[0]).(*ast.Ident); !ok || off == nil || info.ObjectOf(id) != off {
+		return false
+	}
+	for _, l := range []Loc{offs[0], steps[0]} {
+		guarded := false
+		for k, v := range fg.identFacts(fg.DominatingFacts(l)) {
+			if k.obj == cur && k.isNil && !v {
+				guarded = true
+			}
+		}
+		if !guarded {
+			return false
+		}
+	}
+	// every return hands back the offset variable (or the constant 0 where the cursor is nil)
+	for _, r := range fg.Returns() {
+		rs := r.Node.(*ast.ReturnStmt)
+		if len(rs.Results) == 0 {
+			continue // named result
+		}
+		if len(rs.Results) != 1 {
+			return false
+		}
+		if id, ok := ast.Unparen(rs.Results[0]).(*ast.Ident); ok && info.ObjectOf(id) == off {
+			continue
+		}
+		if tv, ok := info.Types[rs.Results[0]]; ok && tv.Value != nil && tv.Value.String() == "0" {
+			continue
+		}
+		return false
+	}
+	return true
 }
